@@ -140,7 +140,7 @@ def generate_triples(rows, values, representative=False, shapemap=False):
         s = node_term(row, i)
         if not shapemap:
             for c in row.classes:
-                triples.append((s, RDF_TYPE, ("iri", EX + c)))
+                triples.append((s, RDF_TYPE, ("iri", c if c.startswith("http") else EX + c)))       # a class may be given as a full IRI (another namespace)
         owned_later = []
         seen = {}
         for (p, tgt) in row.out:
